@@ -10,8 +10,9 @@
     (`move` with `from` = `path`) does not change the order either.
   * "remove" of the whole document (`path` = "") leaves no document; this is represented by JSON
     null (json-c represents "no document" and JSON null by the same NULL pointer).
-  * `test` compares with an equality `eqv` given from outside (RFC 6902 section 4.6 defines it on
-    JSON texts; which numbers are "numerically equal" depends on the number representation).
+  * `test` (section 4.6): numbers are equal when numerically equal, whatever their representation
+    (an integer and a double denoting the same number are equal); NaN and the infinities, which no
+    JSON text denotes, equal nothing.
 -/
 import JsonC.Model.Value
 
@@ -174,6 +175,60 @@ def replace (doc : JVal) (ptr : Pointer) (val : JVal) : Option JVal :=
   | none => some val
   | some last => modify doc ptr.dropLast (replaceLeaf last val)
 
+/-! ### RFC 6902 section 4.6: equality -/
+
+/-- does the IEEE-754 double with bit pattern `bits` denote exactly the integer `n`? -/
+def dblIsInt (bits : UInt64) (n : Int) : Bool :=
+  let b := bits.toNat
+  let neg := b / 9223372036854775808 == 1
+  let e := (b / 4503599627370496) % 2048
+  let m := b % 4503599627370496
+  if e == 2047 then false                          -- infinity, NaN
+  else if e == 0 then m == 0 && n == 0             -- zero (either sign); subnormals are not integers
+  else
+    let mant := 4503599627370496 + m               -- value = mant * 2^(e - 1075)
+    let mag : Option Nat :=
+      if e ≥ 1075 then some (mant * 2 ^ (e - 1075))
+      else if mant % 2 ^ (1075 - e) == 0 then some (mant / 2 ^ (1075 - e)) else none
+    match mag with
+    | some k => n == (if neg then -(k : Int) else (k : Int))
+    | none => false
+
+/-- two doubles denote the same number -/
+def dblEq (a b : UInt64) : Bool :=
+  let isNaN (x : UInt64) : Bool := (x.toNat / 4503599627370496) % 2048 == 2047 && x.toNat % 4503599627370496 != 0
+  let isZero (x : UInt64) : Bool := x.toNat % 9223372036854775808 == 0
+  if isNaN a || isNaN b then false
+  else if isZero a && isZero b then true
+  else a == b
+
+mutual
+  /-- strings: same characters; numbers: numerically equal; arrays: same length, equal element by
+  element; objects: same member names with equal values (in any order); literals: the same -/
+  def valEq : JVal → JVal → Bool
+    | .null, .null => true
+    | .bool a, .bool b => a == b
+    | .int _ a, .int _ b => a == b
+    | .dbl a _, .dbl b _ => dblEq a b
+    | .int _ a, .dbl b _ => dblIsInt b a
+    | .dbl a _, .int _ b => dblIsInt a b
+    | .str a, .str b => a == b
+    | .arr xs, .arr ys => valEqList xs ys
+    | .obj a, .obj b => membersIn a b && (b.all fun p => (lookup p.1 a).isSome)
+    | _, _ => false
+  def valEqList : List JVal → List JVal → Bool
+    | [], [] => true
+    | x :: xs, y :: ys => valEq x y && valEqList xs ys
+    | _, _ => false
+  /-- every member of the first object is a member of `b` with an equal value -/
+  def membersIn : List (Token × JVal) → List (Token × JVal) → Bool
+    | [], _ => true
+    | (k, v) :: r, b =>
+      (match lookup k b with
+       | some w => valEq v w
+       | none => false) && membersIn r b
+end
+
 inductive Op where
   | add (path : Pointer) (value : JVal)
   | remove (path : Pointer)
@@ -195,7 +250,7 @@ inductive Err where
 /-- is `a` a proper prefix of `b` (a location strictly above `b`)? -/
 def properPrefix (a b : Pointer) : Bool := a.isPrefixOf b && a.length != b.length
 
-def applyOp (eqv : JVal → JVal → Bool) (doc : JVal) : Op → Except Err JVal
+def applyOp (doc : JVal) : Op → Except Err JVal
   | .add p v => match add doc p v with
     | some d => .ok d
     | none => .error .cannotAdd
@@ -227,19 +282,19 @@ def applyOp (eqv : JVal → JVal → Bool) (doc : JVal) : Op → Except Err JVal
       | none => .error .cannotAdd
   | .test p v => match get doc p with
     | none => .error .noSuchLocation
-    | some w => if eqv v w then .ok doc else .error .testFailed
+    | some w => if valEq v w then .ok doc else .error .testFailed
 
 /-- sequential application from operation number `i`; the first failing operation's index -/
-def applyFrom (eqv : JVal → JVal → Bool) : Nat → JVal → List Op → Except (Nat × Err) JVal
+def applyFrom : Nat → JVal → List Op → Except (Nat × Err) JVal
   | _, doc, [] => .ok doc
-  | i, doc, op :: ops => match applyOp eqv doc op with
-    | .ok d => applyFrom eqv (i + 1) d ops
+  | i, doc, op :: ops => match applyOp doc op with
+    | .ok d => applyFrom (i + 1) d ops
     | .error e => .error (i, e)
 
 /-- RFC 6902 section 3: operations are applied sequentially in the order they appear; evaluation
 stops at the first operation that fails. -/
-def apply (eqv : JVal → JVal → Bool) (doc : JVal) (ops : List Op) : Except (Nat × Err) JVal :=
-  applyFrom eqv 0 doc ops
+def apply (doc : JVal) (ops : List Op) : Except (Nat × Err) JVal :=
+  applyFrom 0 doc ops
 
 /-! ### RFC 6902 section 4: the patch document -/
 
@@ -285,18 +340,18 @@ def decodeAll : List JVal → Option (List Op)
 
 /-- elements are decoded and applied one after the other: the error index is that of the first
 element that is not an operation object or whose operation fails -/
-def applyElems (eqv : JVal → JVal → Bool) : Nat → JVal → List JVal → Except (Nat × Err) JVal
+def applyElems : Nat → JVal → List JVal → Except (Nat × Err) JVal
   | _, doc, [] => .ok doc
   | i, doc, e :: es => match decodeOp e with
     | none => .error (i, .malformed)
-    | some op => match applyOp eqv doc op with
-      | .ok d => applyElems eqv (i + 1) d es
+    | some op => match applyOp doc op with
+      | .ok d => applyElems (i + 1) d es
       | .error err => .error (i, err)
 
 /-- the whole patch document; `none` index = the document as a whole is not a patch -/
-def applyPatch (eqv : JVal → JVal → Bool) (doc patch : JVal) : Except (Option Nat × Err) JVal :=
+def applyPatch (doc patch : JVal) : Except (Option Nat × Err) JVal :=
   match patch with
-  | .arr elems => match applyElems eqv 0 doc elems with
+  | .arr elems => match applyElems 0 doc elems with
     | .ok d => .ok d
     | .error (i, e) => .error (some i, e)
   | _ => .error (none, .notAnArray)
